@@ -55,6 +55,13 @@ func c02Consumption(c *Ctx, p *Prog, pi *parserInfo) {
 		pos := p.pos(sites[0].Pos())
 		cc := callCommon(sites[0])
 		m := strings.TrimPrefix(calleeName(cc), "(*bytes.Buffer).")
+		var nextArg ssa.Value
+		if m == "Next" && len(cc.Args) == 2 {
+			nextArg = cc.Args[1]
+		}
+		if cnt, viaHelper := pi.helperCount[sites[0]]; viaHelper {
+			m, nextArg = "Next", cnt // the helper removes exactly that many bytes
+		}
 		// delimiter idiom
 		if m == "ReadBytes" {
 			d, ok := constInt(cc.Args[1])
@@ -64,8 +71,8 @@ func c02Consumption(c *Ctx, p *Prog, pi *parserInfo) {
 		}
 		// buf.Next(n): the same idioms with the count as one expression instead of a ReadByte loop
 		nextConst := -1
-		if m == "Next" && len(sites) == 1 && len(cc.Args) == 2 {
-			n := cc.Args[1]
+		if m == "Next" && len(sites) == 1 && nextArg != nil {
+			n := nextArg
 			switch {
 			case func() bool { _, ok := constInt(n); return ok }():
 				k, _ := constInt(n)
